@@ -1,6 +1,9 @@
 package graphql
 
-import "sort"
+import (
+	"sort"
+	"strings"
+)
 
 type SchemaConfig struct {
 	Query        *Object
@@ -18,21 +21,23 @@ type TypeMap map[string]Type
 // query, mutation (optional) and subscription (optional). A schema definition is then supplied to the
 // validator and executor.
 // Example:
-//     myAppSchema, err := NewSchema(SchemaConfig({
-//       Query: MyAppQueryRootType,
-//       Mutation: MyAppMutationRootType,
-//       Subscription: MyAppSubscriptionRootType,
-//     });
+//
+//	myAppSchema, err := NewSchema(SchemaConfig({
+//	  Query: MyAppQueryRootType,
+//	  Mutation: MyAppMutationRootType,
+//	  Subscription: MyAppSubscriptionRootType,
+//	});
+//
 // Note: If an array of `directives` are provided to GraphQLSchema, that will be
 // the exact list of directives represented and allowed. If `directives` is not
 // provided then a default set of the specified directives (e.g. @include and
 // @skip) will be used. If you wish to provide *additional* directives to these
 // specified directives, you must explicitly declare them. Example:
 //
-//     const MyAppSchema = new GraphQLSchema({
-//       ...
-//       directives: specifiedDirectives.concat([ myCustomDirective ]),
-//     })
+//	const MyAppSchema = new GraphQLSchema({
+//	  ...
+//	  directives: specifiedDirectives.concat([ myCustomDirective ]),
+//	})
 type Schema struct {
 	typeMap    TypeMap
 	directives []*Directive
@@ -124,8 +129,8 @@ func NewSchema(config SchemaConfig) (Schema, error) {
 	return schema, nil
 }
 
-//Added Check implementation of interfaces at runtime..
-//Add Implementations at Runtime..
+// Added Check implementation of interfaces at runtime..
+// Add Implementations at Runtime..
 func (gq *Schema) AddImplementation() error {
 
 	// Keep track of all implementations by interface name. The table is
@@ -184,8 +189,8 @@ func (gq *Schema) AddImplementation() error {
 	return nil
 }
 
-//Edited. To check add Types at RunTime..
-//Append Runtime schema to typeMap
+// Edited. To check add Types at RunTime..
+// Append Runtime schema to typeMap
 func (gq *Schema) AppendType(objectType Type) error {
 	if err := invariant(objectType != nil, "Schema types must not contain nil."); err != nil {
 		return err
@@ -279,6 +284,18 @@ func (gq *Schema) AddExtensions(e ...Extension) {
 }
 
 // map-reduce
+// isIntrospectionType reports whether ttype is one of the built-in
+// introspection types (the only types whose names may begin with "__").
+func isIntrospectionType(ttype Type) bool {
+	switch ttype {
+	case Type(SchemaType), Type(DirectiveType), Type(TypeType), Type(FieldType),
+		Type(InputValueType), Type(EnumValueType), Type(TypeKindEnumType),
+		Type(DirectiveLocationEnumType):
+		return true
+	}
+	return false
+}
+
 func typeMapReducer(schema *Schema, typeMap TypeMap, objectType Type) (TypeMap, error) {
 	var err error
 	if objectType == nil {
@@ -313,6 +330,13 @@ func typeMapReducer(schema *Schema, typeMap TypeMap, objectType Type) (TypeMap, 
 		err = invariantf(
 			mappedObjectType == objectType,
 			`Schema must contain unique named types but contains multiple types named "%v".`, objectType.Name())
+		return typeMap, err
+	}
+	// names beginning with "__" belong to the introspection system
+	if err = invariantf(
+		!strings.HasPrefix(objectType.Name(), "__") || isIntrospectionType(objectType),
+		`Name "%v" must not begin with "__", which is reserved by GraphQL introspection.`, objectType.Name(),
+	); err != nil {
 		return typeMap, err
 	}
 	typeMap[objectType.Name()] = objectType
